@@ -8,14 +8,16 @@ from ..runner import HarnessError, Rec
 from ._shared import gen, oracle
 
 
-def check_iban(rec: Rec, text: str, origin: str):
+def check_iban(rec: Rec, text: str, origin: str, must_accept=True):
     from ..lib import IBAN, SchwiftyException
     o = oracle()
     inp = {"iban": text, "origin": origin}
     try:
         iban = IBAN(text)
     except SchwiftyException as e:
-        raise HarnessError(f"constructed IBAN {text} rejected: {e} (C01 territory)")
+        if must_accept:
+            rec.excluded["constructed valid IBAN rejected by the library (C01 territory)"] += 1
+        return False
     s = str(iban)
     cc = s[:2]
     bban = s[4:]
@@ -51,6 +53,7 @@ def check_iban(rec: Rec, text: str, origin: str):
             rec.fail("reassemble_str", "from_bban_roundtrip", inp, s, str(again2))
     except Exception as e:  # noqa: BLE001
         rec.fail(f"reassemble_raises|{type(e).__name__}", "from_bban_roundtrip", inp, s, f"{type(e).__name__}: {e}")
+    return True
 
 
 def check_bic(rec: Rec, text: str, origin: str):
@@ -88,6 +91,30 @@ def shard_country(arg):
         t = g.iban(cc, rng, ("random", "letters", "digits", "min", "max")[k % 5] if k < 5 else "random")
         check_iban(rec, t, "gen")
         rec.case(f"iban-{cc}", t, t if k == 0 else None)
+        # "every accepted IBAN": whatever else the library accepts among the congruent spellings of the check digits
+        # (C02 says it should accept none) must decompose and re-assemble just as well
+        d = int(t[2:4])
+        for alias in (d - 97, d + 97):
+            if 0 <= alias <= 99:
+                t2 = t[:2] + f"{alias:02d}" + t[4:]
+                if check_iban(rec, t2, "alias-spelling", must_accept=False) is not False:
+                    rec.classes["alias-spelling-accepted"] += 1
+                rec.classes["alias-spelling-tried"] += 1
+    # bases solved so that the canonical digits are 02 / 98 (their aliases 99 / 01 are two-digit numbers)
+    from .c02 import solve_for_digits
+    for target in ("02", "98", "97", "03"):
+        b = solve_for_digits(cc, g.bban(cc, rng), g.classes(cc), target, rng)
+        if b:
+            t = g.iban_of(cc, b)
+            check_iban(rec, t, "alias-adjacent")
+            rec.case("iban-alias-adjacent", t)
+            d = int(target)
+            for alias in (d - 97, d + 97):
+                if 0 <= alias <= 99:
+                    t2 = t[:2] + f"{alias:02d}" + t[4:]
+                    if check_iban(rec, t2, "alias-spelling", must_accept=False) is not False:
+                        rec.classes["alias-spelling-accepted"] += 1
+                    rec.classes["alias-spelling-tried"] += 1
     return rec
 
 
